@@ -83,6 +83,10 @@ type Node struct {
 	PadTo   int
 	GlueIn  bool // in-path placeholders glued to an option: -i={i:x}
 	NoSpawn bool // Process.Spawn = false (a documented field the library ignores)
+	// Nest > 0 (Go-function task): the function builds and runs a small workflow of
+	// its own (a source with the task's first input, one process) with Nest slots
+	// before it writes its outputs - a second Workflow object alive in the program
+	Nest    int
 	Head    int  // > 0: the command reads only the first Head bytes of each input and closes it (head -c)
 	TouchIn bool // the command re-writes its first input in place (same bytes, later mtime)
 	BgTail  bool // the command returns while a child of it still writes the rest of the first output
@@ -116,6 +120,10 @@ type WF struct {
 	Dirs        []string // directories that exist before the run (absolute)
 	RunTo       []string
 	RunToMode   int  // 0 names, 1 regex, 2 procs
+	// Parallel: a second, small workflow (source "second_in.txt", one process) is
+	// created and run by the main goroutine while the first one runs in a
+	// goroutine of its own
+	Parallel    bool
 	RunToNone   bool // RunTo* is called with a target set that selects no process at all
 	FullLogging bool // do not lower the log level: NewWorkflow sets up audit logging to stdout + file
 	// Rounds: further runs of the same workflow inside the SAME process (a driver
@@ -139,6 +147,9 @@ func (w *WF) Describe() string {
 	fmt.Fprintf(&b, "workflow %s maxTasks=%d bufsize=%d", w.Name, w.MaxTasks, w.Bufsize)
 	if len(w.RunTo) > 0 {
 		fmt.Fprintf(&b, " RunTo(mode %d)=%v", w.RunToMode, w.RunTo)
+	}
+	if w.Parallel {
+		b.WriteString(" +a second workflow created and run concurrently")
 	}
 	if w.RunToNone {
 		fmt.Fprintf(&b, " RunTo(mode %d) with an EMPTY target set", w.RunToMode)
@@ -192,6 +203,9 @@ func (w *WF) Describe() string {
 		}
 		if n.Custom != 0 {
 			fmt.Fprintf(&b, " gofunc=%d", n.Custom)
+		}
+		if n.Nest > 0 {
+			fmt.Fprintf(&b, " runs-a-nested-workflow(slots=%d)", n.Nest)
 		}
 		if n.Prepend != "" {
 			fmt.Fprintf(&b, " prepend=%q", n.Prepend)
